@@ -106,6 +106,12 @@ pub fn c02_scenarios() -> Vec<Scenario> {
 }
 
 pub fn run_c02(ctx: &Ctx) -> Outcome {
+    let mut out = with_budget_scale(0.85, || run_c02_main(ctx));
+    out.absorb(generated_pass(ctx, "C02", judge_c02, full_policy()));
+    out
+}
+
+fn run_c02_main(ctx: &Ctx) -> Outcome {
     let mut scs = c02_scenarios();
     scs.extend(scenarios(true).into_iter().filter(|s| ["window7", "window1-capacity", "body-40k", "three-streams-late", "client-reset"].contains(&s.name.as_str())));
     let max_dev = if ctx.tier.is_quick() { 2 } else { 3 };
@@ -200,6 +206,12 @@ pub fn c04_scenarios() -> Vec<Scenario> {
 }
 
 pub fn run_c04(ctx: &Ctx) -> Outcome {
+    let mut out = with_budget_scale(0.85, || run_c04_main(ctx));
+    out.absorb(generated_pass(ctx, "C04", judge_c04, full_policy()));
+    out
+}
+
+fn run_c04_main(ctx: &Ctx) -> Outcome {
     let mut scs = c04_scenarios();
     scs.extend(scenarios(true).into_iter().filter(|s| ["post-trailers", "two-streams-interim", "push", "client-reset", "server-reset", "max-concurrent-1", "big-headers"].contains(&s.name.as_str())));
     let max_dev = if ctx.tier.is_quick() { 2 } else { 3 };
@@ -326,6 +338,12 @@ pub fn c06_scenarios() -> Vec<Scenario> {
         Cfg { s_max_concurrent: Some(1), c_initial_max_send_streams: Some(1), c_parked_reset_then_ready: true, ..Cfg::default() },
         vec![StreamSpec { s_recv: RecvMode::Late, ..StreamSpec::new(m(&[3, 3]), m(&[3])) }],
     ));
+    // a reservation above the send-buffer limit whose size is not a multiple of it, windows far larger than the limit
+    v.push(mk(
+        "send-buffer-5-tail",
+        Cfg { c_max_send_buffer: Some(5), s_max_send_buffer: Some(5), ..Cfg::default() },
+        vec![StreamSpec::new(MsgSpec { use_capacity: true, ..m(&[12]) }, MsgSpec { use_capacity: true, ..m(&[7, 6]) })],
+    ));
     v.push(mk(
         "send-buffer-1",
         Cfg { c_max_send_buffer: Some(1), s_max_send_buffer: Some(1), ..Cfg::default() },
@@ -335,6 +353,12 @@ pub fn c06_scenarios() -> Vec<Scenario> {
 }
 
 pub fn run_c06(ctx: &Ctx) -> Outcome {
+    let mut out = with_budget_scale(0.85, || run_c06_main(ctx));
+    out.absorb(generated_pass(ctx, "C06", judge_c06, full_policy()));
+    out
+}
+
+fn run_c06_main(ctx: &Ctx) -> Outcome {
     let mut scs = c06_scenarios();
     scs.extend(scenarios(true).into_iter().filter(|s| !["frame16385", "body-40k", "big-headers"].contains(&s.name.as_str())));
     let max_dev = if ctx.tier.is_quick() { 2 } else { 3 };
@@ -537,6 +561,12 @@ pub fn c17_scenarios(quick: bool) -> Vec<Scenario> {
 }
 
 pub fn run_c17(ctx: &Ctx) -> Outcome {
+    let mut out = with_budget_scale(0.85, || run_c17_main(ctx));
+    out.absorb(generated_pass(ctx, "C17", judge_c17, full_policy()));
+    out
+}
+
+fn run_c17_main(ctx: &Ctx) -> Outcome {
     let scs = c17_scenarios(ctx.tier.is_quick());
     let max_dev = if ctx.tier.is_quick() { 2 } else { 3 };
     let mut out = run_t1_property(ctx, "C17", &scs, judge_c17, max_dev, full_policy(), &["partial_writes"]);
